@@ -51,6 +51,16 @@ def nliH (j : Json) : R Json := do
                  ("ref_f", jF fib.refF), ("len", jF fib.len),
                  ("nli", jList jF (nli fib.len cs)), ("nli_spec", jList jF (nliSpec fib.len cs))]
 
+/-- constructor (argsort by frequency) + `compute_nli` on channels supplied in any order -/
+def nliAnyH (j : Json) : R Json := do
+  let fib ← getFibre (← fld j "fibre")
+  let f ← fList getF j "f"
+  let b ← fList getF j "b"
+  let p ← fList getF j "p"
+  match computeNliAny fib (zip3 f b p) with
+  | none => return jObj [("error", jStr "SpectrumError")]
+  | some n => return jObj [("nli", jList jF n)]
+
 /-- the NLI share after `Fiber.__call__`: `nli / pch` evaluated on the powers behind the input connector -/
 def ratioH (j : Json) : R Json := do
   let fib ← getFibre (← fld j "fibre")
@@ -89,6 +99,6 @@ def combH (j : Json) : R Json := do
   return jBool (combAccepted (zip3 f b s))
 
 def handlers : List (String × Handler) :=
-  [("c03.nli", nliH), ("c03.ratio", ratioH), ("c03.psi", psiH), ("c03.comb", combH)]
+  [("c03.nli", nliH), ("c03.nli_any", nliAnyH), ("c03.ratio", ratioH), ("c03.psi", psiH), ("c03.comb", combH)]
 
 end Gnpy.Drv.C03
